@@ -177,7 +177,10 @@ class Ctx:
 class Outcome:
     """What a property module reports."""
 
+    last = None      # the Outcome most recently created (lets the runner keep what a module found before it crashed)
+
     def __init__(self):
+        Outcome.last = self
         self.evaluations = 0
         self.nontrivial = set()
         self.samples = []
@@ -392,7 +395,23 @@ def check(pid, tier, seed):
     ctx.driver_ok = driver_ok
     changed_src = anchored_changes(pid)
     ctx.escalate = bool(changed_src) and not os.environ.get("VERIF_NO_ESCALATE")
-    out = mod.run(ctx)
+    Outcome.last = None
+    try:
+        out = mod.run(ctx)
+    except subprocess.TimeoutExpired:
+        raise
+    except Exception as e:  # noqa
+        # a harness exception on this tree: keep the oracle failures collected before it (they are judged as usual);
+        # with none collected this is a crash of the check (exit 2), never a verdict
+        import traceback
+        tb = traceback.format_exc()
+        out = Outcome.last
+        if out is None or not out.failures:
+            print(tb)
+            print("HARNESS-CRASH property=%s: %r" % (pid, e))
+            return 2
+        out.notes.append("the property module raised %r after %d evaluations; verdict from the failures collected before it" % (e, out.evaluations))
+        print(tb[-1500:])
     for d in out.disagreements[:1]:
         broken.append(("correspondence", d.get("op", "?"), "model and implementation differ"))
 
